@@ -215,6 +215,9 @@ pub struct Outcome {
     pub known_finding_lines: Vec<String>,
     #[serde(default)]
     pub trace: Vec<String>,
+    /// largest CPU time one API call consumed in this run (ms)
+    #[serde(default)]
+    pub max_call_cpu_ms: u64,
 }
 
 #[derive(Serialize, Deserialize, Clone, Debug)]
